@@ -95,8 +95,10 @@ def rnd_ops(r, depth, lazy=False, in_fn=False):
             out.append(["el", "?"])
         elif x < 0.55:
             out.append(["el", r.choice(["_", "+", "∇", "$", "+", "_"])])
-        elif x < 0.60 and in_fn and not lazy:
-            out.append(["brk"])   # early return: the call's input scope must be dropped
+        elif x < 0.60 and in_fn and not lazy and not any(n[0] == "mod" for n in out):
+            # early return: the call's input scope must be dropped (never after a modifier in the
+            # same body: that is the known finding C01-break-after-modifier-ignored)
+            out.append(["brk"])
         elif x < 0.65:
             out.append(["num", r.randint(1, 9)])
         elif x < 0.70 and not lazy:
